@@ -34,7 +34,7 @@ PROPS['C19'] = dict(
 PROPS['C01'] = dict(
     level_text='Theorems state that on every trie reachable by any subscribe/unsubscribe history a Walk reports exactly the data stored under the filters that MQTT-match the topic (mmatch), independent of the other filters; the Go trie is tied to the model exhaustively for <=3/4 levels over {a,b,c,+,#,""} and by seeded histories.',
     level_note='Trusted: Coq kernel + vm_compute; harness/emitter/evaluator. Topics with a # level are outside the theorem (MQTT forbids them in PUBLISH).',
-    theorems=['walk_matches', 'reachable_tries_wf', 'walk_history_spec', 'match_independent'],
+    theorems=['walk_matches', 'reachable_tries_wf', 'walk_history_spec', 'match_independent', 'deliver_exact', 'deliver_to_no_other'],
     families=[dict(name='tries', corr='Tries', runs=[('x01', 1, 1), ('rsub', 300, 5000)]),
               dict(name='crdt', corr='DState', runs=[('subs', 200, 3000)]),
               dict(name='broker', corr='Broker', runs=[('route', 40, 500), ('pipeline', 24, 300)], par=8)],
@@ -94,7 +94,7 @@ PROPS['C10'] = dict(
 )
 
 PROPS['C16'] = dict(
-    theorems=['sort_search_contract', 'file_auth_first_match', 'file_auth_iff', 'static_auth_iff'],
+    theorems=['sort_search_contract', 'file_auth_first_match', 'file_auth_iff', 'static_auth_iff', 'refused_creates_nothing'],
     families=[dict(name='auth', corr='Auth', runs=[('exhaustive', 1, 1), ('random', 250, 4000)]),
               dict(name='broker', corr='Broker', runs=[('lifecycle', 32, 400)], par=8)],
     level_text='Theorems: Go\'s sort.Search (exact bisection) returns the least index of a monotone predicate; the file handler (parse, stable sort by user digest, bisection, scan) returns for every file and candidate the mount point of the first line with that user and password digest, and accepts iff some line is configured for the pair (SHA-256 injective as explicit premise); the static handler accepts iff both match. Tied to the Go code by every table of <=2/3 entries over 4 users x 2 passwords x 3 line shapes in every order, and seeded tables of up to 15 lines with repeated users, empty mount points, 1- and 4-field lines and garbage digests, against 35-48 candidates each, through auth.FileHandler / StaticHandler on real files.',
@@ -104,7 +104,7 @@ PROPS['C16'] = dict(
 )
 
 PROPS['C17'] = dict(
-    theorems=['prefix_trim', 'no_cross_match', 'same_tenant_match'],
+    theorems=['prefix_trim', 'no_cross_match', 'same_tenant_match', 'tenant_isolation'],
     families=[dict(name='mount', corr='Mount', runs=[('random', 150, 2000)]),
               dict(name='crdt', corr='DState', runs=[('tenants', 150, 2500)]),
               dict(name='broker', corr='Broker', runs=[('tenants', 32, 400), ('wills', 16, 200)], par=8)],
@@ -123,13 +123,36 @@ PROPS['C07'] = dict(
     rule='x07: every filter of <=3 levels over {a,b,+,#,""} against all 39 topics of <=3 levels over {a,b,""}; rtop: seeded insert/remove/match histories; retained: 2-29 set/clear operations over 8 topics with shared prefixes and empty levels, replicated shuffled with duplicates, 16+ Get queries with filters of <=3 levels over {a,b,c,+,#,""}.',
 )
 
+_E2E_NOTE = 'Trusted: Coq kernel + vm_compute; the end-to-end harness (scripted connections, logging wrappers around the real log/writer/in-flight queue/registry, in-process gRPC, condition waits), its Gallina emitter and the evaluator Corr/Broker.v. The node model runs each script step to quiescence: interleavings inside a step (publish workers, log consumer, writer) are not distinguished, overload behaviour (800 ms Process timeout, identifier retry) is not modelled; broker-chosen packet identifiers are compared as per-step multisets. The theorems are about the building blocks of the step function (Distribute, publish worker, writer send, in-flight callbacks, shutdownSession, setup), not about whole histories, except where stated.'
+
 def _broker(runs):
     return dict(name='broker', corr='Broker', runs=runs, par=8)
 
-PROPS['C02'] = dict(theorems=[], families=[_broker([('pipeline', 40, 400)])], rule='pipeline: 1-3 publishers and subscribers, 1-12 publishes (QoS mix) from the very first log entry on; thorough: every 8th case 520 publishes (segment roll).')
-PROPS['C03'] = dict(theorems=[], families=[_broker([('acks', 64, 800)])], rule='acks: 1-3 sessions subscribed at QoS 1/2, 1-4 messages, per in-flight message the client acknowledges / stays silent for sweeps / answers with the wrong type or an unknown identifier / ends its session, interleaved; then a fresh subscriber shows which identifiers are reusable.')
-PROPS['C05'] = dict(theorems=[], families=[_broker([('inbound', 48, 600)])], rule='inbound: 2 nodes, PUBLISH QoS 0/1/2 with fresh and repeated identifiers, PUBREL (repeated, unknown), sweeps, injected local-log and remote-node failures.')
-PROPS['C11'] = dict(theorems=[], families=[_broker([('lifecycle', 48, 600), ('takeover', 24, 300), ('peerfail', 8, 64)])], rule='lifecycle: 1-2 nodes, sessions with subscribe/unsubscribe/ping/publish ending by DISCONNECT, EOF, read deadline, protocol error or staying connected; refused CONNECTs; listings at the end.')
-PROPS['C12'] = dict(theorems=[], families=[_broker([('takeover', 40, 500), ('takeover3', 8, 40)])], rule='takeover: chains of 2-3 connections sharing a client identifier on 1-2 nodes, old sessions ping/subscribe/disconnect/lose the connection, gossip in between; a connection with the same identifier in another mount point.')
-PROPS['C13'] = dict(theorems=[], families=[_broker([('wills', 24, 300)])], rule='wills: will QoS x retain x topic (empty levels, other tenant name) x ending (EOF, deadline, protocol error, DISCONNECT, host failure with and without prior DISCONNECT) x hosting node, watchers on every node and in another mount point.')
-PROPS['C14'] = dict(theorems=[], families=[_broker([('cluster', 40, 500)])], rule='cluster: 2-3 nodes, 0-2 subscribers per node with filters t/#, t/+, u, publisher on any node, every subset of other nodes unreachable, topics t/a, u, v.')
+PROPS['C02'] = dict(theorems=['acked_implies_stored', 'nothing_skipped', 'stored_entry_delivered', 'delivered_only_to_recipients'],
+    level_text="Theorems (node model): the acknowledgement is emitted only after every destination log accepted the message; the log consumer hands every stored entry, offset 0 included, to the writer; a stored entry is written with topic and payload intact to exactly the recipients in the registry. Tied to the Go code by end-to-end scripts on a real node with a real message log (publishers, subscribers, QoS mix, retained clears, a subscriber whose writes fail), compared step by step with the model. Segment rolls and truncation are covered by C15's consumer model and the thorough tier's 520-publish runs.",
+    level_note=_E2E_NOTE,
+    families=[_broker([('pipeline', 40, 400)])], rule='pipeline: 1-3 publishers and subscribers, 1-12 publishes (QoS mix) from the very first log entry on; thorough: every 8th case 520 publishes (segment roll).')
+PROPS['C03'] = dict(theorems=['qos1_retransmit', 'qos2_publish_phase', 'qos2_pubrec_then_pubrel', 'qos2_pubrel_phase', 'completion_frees', 'wrong_ack_harmless'],
+    level_text='Theorems (node model): an expired QoS 1 PUBLISH / QoS 2 PUBLISH / PUBREL of a live session is written again with the same identifier and re-armed; PUBREC moves a QoS 2 delivery to its PUBREL phase; the completing acknowledgement, or expiry after the session ended, sends nothing and returns the identifier to the pool; an acknowledgement of the wrong type or for an unknown identifier changes nothing. Tied to the Go writer and in-flight queue by end-to-end scripts (acknowledge / stay silent for sweeps / wrong type / unknown identifier / session end, interleaved over 1-3 sessions) compared step by step, identifiers as per-step multisets.',
+    level_note=_E2E_NOTE,
+    families=[_broker([('acks', 64, 800)])], rule='acks: 1-3 sessions subscribed at QoS 1/2, 1-4 messages, per in-flight message the client acknowledges / stays silent for sweeps / answers with the wrong type or an unknown identifier / ends its session, interleaved; then a fresh subscriber shows which identifiers are reusable.')
+PROPS['C05'] = dict(theorems=['stored_iff_reported_ok', 'ack_after_store', 'qos2_never_on_publish_alone', 'qos2_not_again'],
+    level_text='Theorems (node model): Distribute reports success iff no local append and no remote write failed, and then the message is in the log of every destination; the worker writes PUBACK/PUBCOMP only then; a QoS 2 PUBLISH alone stores nothing; a PUBREL without a pending handshake (repeated, unknown, timed out) forwards nothing. Tied to the Go code by two-node scripts with injected log and network failures, repeated and unknown identifiers, a second session with the same client id.',
+    level_note=_E2E_NOTE,
+    families=[_broker([('inbound', 48, 600)])], rule='inbound: 2 nodes, PUBLISH QoS 0/1/2 with fresh and repeated identifiers, PUBREL (repeated, unknown), sweeps, injected local-log and remote-node failures.')
+PROPS['C11'] = dict(theorems=['ends_only_for_cause', 'end_leaves_registry', 'end_closes_connection'],
+    level_text="Theorems (node model): a connection is closed only in a step whose event is a cause (CONNECT that cannot be set up, rejected packet, PINGREQ of a displaced session, DISCONNECT, loss, read deadline) - never by subscribes, acknowledgements, sweeps, gossip, peer failures, injected faults or the delivery pipeline; ending a session removes it from the registry and closes its connection. The removal of records and subscriptions from every node's view and the armed 2 x keep-alive deadline are validated end-to-end (listings of every node after gossip; deadline in force after CONNACK and after every packet) on 1-3 nodes, including peer failure.",
+    level_note=_E2E_NOTE,
+    families=[_broker([('lifecycle', 48, 600), ('takeover', 24, 300), ('peerfail', 8, 64)])], rule='lifecycle: 1-2 nodes, sessions with subscribe/unsubscribe/ping/publish ending by DISCONNECT, EOF, read deadline, protocol error or staying connected; refused CONNECTs; listings at the end.')
+PROPS['C12'] = dict(theorems=['teardown_spares_new', 'teardown_keeps_records'],
+    level_text='Theorems (node model): tearing down a displaced session changes no session record, publishes no will and closes only its own connection. That the new session is established and resolves everywhere, and that the old one stops at its next PINGREQ, is validated end-to-end on 1-3 nodes (chains of connections, gossip orders incl. tombstone-before-creation, same identifier in another mount point) against the model; partial: the history-level statement takeover_established is not proved.',
+    level_note=_E2E_NOTE,
+    families=[_broker([('takeover', 40, 500), ('takeover3', 8, 40)])], rule='takeover: chains of 2-3 connections sharing a client identifier on 1-2 nodes, old sessions ping/subscribe/disconnect/lose the connection, gossip in between; a connection with the same identifier in another mount point.')
+PROPS['C13'] = dict(theorems=['will_on_unclean_end', 'no_will_after_disconnect', 'no_will_without_lwt'],
+    level_text="Theorems (node model): an unclean end hands exactly the will, under the session's mount point, to the publish path once; after DISCONNECT, for a displaced session, and without a will nothing is published. Host failure (each survivor appends the will under the mount point to its own log) is validated end-to-end on 2-3 nodes with watchers on every node and in another mount point.",
+    level_note=_E2E_NOTE,
+    families=[_broker([('wills', 24, 300)])], rule='wills: will QoS x retain x topic (empty levels, other tenant name) x ending (EOF, deadline, protocol error, DISCONNECT, host failure with and without prior DISCONNECT) x hosting node, watchers on every node and in another mount point.')
+PROPS['C14'] = dict(theorems=['append_exactly_once', 'remote_delivers_local_only'],
+    level_text='Theorems (node model): Distribute appends the message at most once per node, exactly once per destination when it reports success, to no node outside the destination set, visiting every destination whatever fails; each node writes a log entry only to registered recipients. Tied to the Go code by 2-3 node scripts over in-process gRPC with every subset of other nodes unreachable.',
+    level_note=_E2E_NOTE,
+    families=[_broker([('cluster', 40, 500)])], rule='cluster: 2-3 nodes, 0-2 subscribers per node with filters t/#, t/+, u, publisher on any node, every subset of other nodes unreachable, topics t/a, u, v.')
